@@ -178,16 +178,30 @@ class ScriptedBroker(AsyncBroker):
             info["payload"] = message.message
             self._arrive(info, scripted=False)
 
+    def _fault(self) -> None:
+        self.fault_pending = True
+        if self.wake is not None:
+            self.wake.set()
+
     async def listen(self) -> Any:  # type: ignore[override]
         sc = self.sc
         self.wake = asyncio.Event()
         while True:
+            if getattr(self, "fault_pending", False):
+                # the connection to the message source breaks: the stream raises (programmatic workers restart it)
+                self.fault_pending = False
+                sc.trace.add("stream_fault")
+                raise ConnectionError("stream broken")
             while not self.q:
                 if self.script_left <= 0 and sc.spec.get("end_stream"):
                     sc.trace.add("stream_end")
                     return
                 self.wake.clear()
                 await self.wake.wait()
+                if getattr(self, "fault_pending", False):
+                    break
+            if getattr(self, "fault_pending", False):
+                continue
             info = self.q.popleft()
             payload = info["payload"]
             if isinstance(payload, (bytes, bytearray)):
@@ -670,6 +684,26 @@ async def _run_beh(sc: Scenario, tok: str, args: Any, kwargs: Any, depvals: Any,
                 await asyncio.sleep(0)
             elif step == "never":
                 await asyncio.get_running_loop().create_future()
+            elif isinstance(step, str) and step.startswith("w"):
+                # waits for a reply that only a weak registry knows about (request/response over a connection):
+                # nothing but the worker's own bookkeeping keeps this task alive while it waits; the garbage
+                # collector runs in the meantime
+                import gc
+                import weakref
+
+                lp = asyncio.get_running_loop()
+                fut = lp.create_future()
+                reg = sc.__dict__.setdefault("weak_replies", weakref.WeakValueDictionary())
+                key = (tok, len(sc.trace.ev))
+                reg[key] = fut
+
+                def _reply(key: Any = key) -> None:
+                    gc.collect()
+                    f = reg.get(key)
+                    if f is not None and not f.done():
+                        f.set_result(None)
+                lp.call_later(float(step[1:]), _reply)
+                await fut  # the frame of this coroutine (i.e. its task) is the only strong holder
             else:
                 await asyncio.sleep(step)
     except asyncio.CancelledError:
@@ -951,6 +985,8 @@ def run_worker(spec: Dict[str, Any], real: bool = False) -> RunResult:
                     sc.trace.add("send_err", None, tok=tok, exc=type(exc).__name__,
                                  cause=type(exc.__cause__).__name__, is_send_error=isinstance(exc, SendTaskError))
             await asyncio.gather(*[_send(s) for s in sends])
+        for ft in spec.get("stream_faults", []):
+            loop.call_at(T0 + ft, broker._fault)
         for at, f, tname, labels in sc.late:
             def _reg(f: Any = f, tname: str = tname, labels: Any = labels) -> None:
                 broker.register_task(f, task_name=tname, **labels)
